@@ -130,6 +130,12 @@ func shapeKey(c Config) string {
 			k += "+duplicated-subject"
 		}
 	}
+	if c.NoReply > 0 && c.Early == "" && c.StopFrom == "" {
+		k += " reply-less-msgs"
+	}
+	if c.Blip != "" {
+		k += " server-link-blip=" + c.Blip
+	}
 	return k
 }
 
@@ -158,6 +164,7 @@ func workerStopConfig(rng *rand.Rand, w, q int, from, dur string, share bool, re
 	c.PureRecv = false // S is identified in the request-received handler
 	c.DupSubj = false  // ... of the one subscription that carries the traffic
 	c.StopFrom = from
+	c.NoReply = 0 // S is identified by its position among the received messages
 	c.K = pickK(rng, c)
 	c.K1 = rng.Intn(c.K + 1)
 	if dur == "gate" { // S must get a worker while the others are parked on the gate
@@ -186,6 +193,7 @@ func earlyConfig(rng *rand.Rand, w, q int, mode string, share bool, rep int) Con
 		c.BClass, c.B = "q+w+1", q+w+1
 	}
 	c.K = 0
+	c.NoReply = 0
 	c.Early = mode
 	c.EarlyN = 1 + rng.Intn(3)
 	c.EarlyUs = []int{1, 5, 20, 50, 100, 200}[rng.Intn(6)]
@@ -212,6 +220,45 @@ func fill(rng *rand.Rand, c Config) Config {
 	c.GateUs = []int{0, 100, 1000, 5000}[rng.Intn(4)]
 	c.DrainTO = drainTOs[rng.Intn(len(drainTOs))]
 	c.Seed = rng.Int63()
+	c.NoReply = noReplyOf(c.Seed)
+	return c
+}
+
+// noReplyOf: number of reply-less messages in the "received before Stop"
+// stream, a function of the config's seed (so that this dimension does not
+// shift the draws of the others): none in 10 of 16 configs, else 1, 2 or 5.
+func noReplyOf(seed int64) int {
+	h := uint64(seed) * 0x9E3779B97F4A7C15
+	return []int{0, 0, 0, 0, 0, 0, 0, 0, 0, 0, 1, 1, 1, 2, 2, 5}[h>>60]
+}
+
+// noReplyConfig: 1-3 messages without reply subject in the stream (first,
+// last, in between - drawn in the scenario), every burst class and handler
+// mode, Stop at any position.
+func noReplyConfig(rng *rand.Rand, w, q int, bclass, dur string, n, rep int) Config {
+	c := fill(rng, Config{W: w, Q: q, BClass: bclass, Dur: dur, Share: rng.Intn(2) == 0, Rep: rep})
+	c.K = pickK(rng, c)
+	c.NoReply = n
+	c.DrainTO = ""
+	return c
+}
+
+// blipConfig: the server's link goes down after Stop returned, with k <= q+w
+// accepted requests parked on the gate (none can have been answered yet), and
+// recovers; nothing is published while or after Stop except the requests
+// that must not be processed.
+func blipConfig(rng *rand.Rand, w, q int, mode string, rep int) Config {
+	c := fill(rng, Config{W: w, Q: q, BClass: "q+w", Dur: "gate", Share: rng.Intn(2) == 0, Rep: rep})
+	c.K = []int{c.B, c.B, imin(c.B, q), 1 + rng.Intn(c.B)}[rng.Intn(4)]
+	c.B = c.K + rng.Intn(3) // the others are published after Stop returned
+	c.Rest = "after"
+	c.Blip = mode
+	c.BlipUs = []int{0, 100, 500, 2000}[rng.Intn(4)]
+	c.GateUs = 0        // the gate is opened by the scenario once the connection is RECONNECTING
+	if mode == "race" { // the backlog takes k/w x 0.2-2 ms: the recovery falls into it
+		c.PostGateUs = []int{200, 1000, 2000}[rng.Intn(3)]
+	}
+	c.Bad, c.DrainTO, c.StopUs = 0, "", 0
 	return c
 }
 
@@ -357,6 +404,23 @@ func buildSweep(run *ev.Run) []Config {
 		for _, w := range sweepW {
 			for _, q := range sweepQ {
 				add(connLossConfig(rng, w, q, []string{"cut", "broker"}[n%2], []string{"5ms", "gate", "20ms", "1ms"}[(n/2)%4], 0))
+				n++
+			}
+		}
+		// 16 configs: every w x q once with 1-3 reply-less messages in the stream
+		n = 0
+		for _, w := range sweepW {
+			for _, q := range sweepQ {
+				add(noReplyConfig(rng, w, q, bClasses[(n+2)%len(bClasses)], sweepDur[(n+1)%len(sweepDur)], 1+n%3, 0))
+				n++
+			}
+		}
+		// 16 configs: every w x q once with a link blip of the server's
+		// connection while the accepted requests are worked off
+		n = 0
+		for _, w := range sweepW {
+			for _, q := range sweepQ {
+				add(blipConfig(rng, w, q, []string{"hold", "hold", "race", "hold"}[n%4], 0))
 				n++
 			}
 		}
@@ -515,6 +579,26 @@ func buildSweep(run *ev.Run) []Config {
 			}
 		}
 	}
+	// reply-less messages in the stream
+	for _, w := range sweepW {
+		for _, q := range sweepQ {
+			for _, bc := range bClasses {
+				for _, d := range sweepDur {
+					add(noReplyConfig(rng, w, q, bc, d, 1+rng.Intn(3), 0))
+				}
+			}
+		}
+	}
+	// link blip of the server's connection while the accepted requests are worked off
+	for rep := 0; rep < 3; rep++ {
+		for _, w := range sweepW {
+			for _, q := range sweepQ {
+				for _, mode := range []string{"hold", "race"} {
+					add(blipConfig(rng, w, q, mode, rep))
+				}
+			}
+		}
+	}
 	out = append(out, soleWorkerProbe(rng, len(out))...)
 	out = append(out, connLossFullProbe(rng, len(out))...)
 	return out
@@ -533,6 +617,7 @@ func idleSubjConfig(rng *rand.Rand, w, q, nsubj, idle int, dur string, share boo
 	c.Arrival = "burst"
 	c.GateUs = []int{5000, 20000}[rng.Intn(2)]
 	c.DrainTO = ""
+	c.NoReply = 0 // the count of requests inside the NATS client at Stop is the point here
 	return c
 }
 
@@ -638,6 +723,7 @@ func soleWorkerProbe(rng *rand.Rand, idx int) []Config {
 		c.NSubj, c.Busy, c.PureRecv, c.DupSubj, c.StopFrom, c.Rest, c.DrainTO = 1, 1, false, false, from, "after", ""
 		c.K, c.K1 = c.B, 0
 		c.SoleProbe = true
+		c.NoReply = 0
 		c.Idx = idx + i
 		out = append(out, c)
 	}
@@ -823,9 +909,10 @@ var panicNorm = regexp.MustCompile(`0x[0-9a-fA-F]+|\d+`)
 
 func runC20(tier string, args []string) int {
 	run := ev.New("C20", tier, "exploration")
-	run.Rule("configuration sweep workers {1,2,4,8} x queue {1,2,8,64} x burst {1,q,q+w,q+w+1,2(q+w),10(q+w)} x handler {0,1ms,5ms,PRNG 0-3ms,gate released after Stop is called} x position of Stop (incl. position 0 issued right after `go Serve()` without waiting for the subscription, with no / Gosched / 1-200us yields so that Stop is called both before and after Serve is parked; otherwise k of b double-flushed into the server's NATS client first; the rest published concurrently with Stop and/or after it returned; one extra request after Stop returned in every scenario) x caller of Stop (harness goroutine, or a worker goroutine: the processor / started / finished event handler of a shutdown request placed inside the double-flushed stream, wherever the drain can finish without that worker) x subjects 1-4 with traffic on a subset (idle subscriptions next to busy ones, incl. full queue with exactly as many requests parked in the NATS client as there are idle subjects) x WithHighWatermark {default, 1ms, 10ms, 50ms} incl. queue waits beyond it, the library's default request-received handler always in effect (wrapped by the counter, or left to the builder) x queue length also 0 and 1 (workers 1, 2, 4, 8) x handlers gated for 6.5 s after Stop was called (Serve must not return before they are answered) x queue group or none, subject list naming a subject twice (with a queue group) x late requests after Stop AND Serve returned in every scenario (the stopped server takes nothing off NATS: no request-received event, no processing, and a probe member of the queue group subscribed after Serve returned sees every late request) x failing requests (>= worker count: message shorter than the frame size, bad header version, truncated header, processor error) interleaved in front of well-formed ones x fault 'server connection lost right before Stop' (NoReconnect; TCP cut through a relay / private broker shut down; k <= q+w requests in the work queue; replies not judged, processing before Serve returns is) x server connection option DrainTimeout {default, bare Options literal = 0, 1ms, 50ms} incl. backlogs that outlast it x server connection shared with an unrelated subscription or not x 1-2 subjects x arrival pattern; every scenario runs a real FNatsServer against an embedded nats-server in a child process; distinct = (w, q, burst class, handler mode, stop-position class, rest mode, sharing, subjects)")
+	run.Rule("configuration sweep workers {1,2,4,8} x queue {1,2,8,64} x burst {1,q,q+w,q+w+1,2(q+w),10(q+w)} x handler {0,1ms,5ms,PRNG 0-3ms,gate released after Stop is called} x position of Stop (incl. position 0 issued right after `go Serve()` without waiting for the subscription, with no / Gosched / 1-200us yields so that Stop is called both before and after Serve is parked; otherwise k of b double-flushed into the server's NATS client first; the rest published concurrently with Stop and/or after it returned; one extra request after Stop returned in every scenario) x caller of Stop (harness goroutine, or a worker goroutine: the processor / started / finished event handler of a shutdown request placed inside the double-flushed stream, wherever the drain can finish without that worker) x subjects 1-4 with traffic on a subset (idle subscriptions next to busy ones, incl. full queue with exactly as many requests parked in the NATS client as there are idle subjects) x WithHighWatermark {default, 1ms, 10ms, 50ms} incl. queue waits beyond it, the library's default request-received handler always in effect (wrapped by the counter, or left to the builder) x queue length also 0 and 1 (workers 1, 2, 4, 8) x handlers gated for 6.5 s after Stop was called (Serve must not return before they are answered) x queue group or none, subject list naming a subject twice (with a queue group) x late requests after Stop AND Serve returned in every scenario (the stopped server takes nothing off NATS: no request-received event, no processing, and a probe member of the queue group subscribed after Serve returned sees every late request) x failing requests (>= worker count: message shorter than the frame size, bad header version, truncated header, processor error) interleaved in front of well-formed ones x fault 'server connection lost right before Stop' (NoReconnect; TCP cut through a relay / private broker shut down; k <= q+w requests in the work queue; replies not judged, processing before Serve returns is) x messages WITHOUT reply subject (plain Publish on a service subject; 0 in 10 of 16 configs, else 1, 2, 5, at any position of the received-before-Stop stream; nothing is demanded for them, 'finished == received' allows for them) x fault 'link blip of the server connection' (default reconnect behaviour, ReconnectWait 20ms / 1ms, through a relay that goes down AFTER Stop returned and every drained subscription left the client's table, with k <= q+w accepted requests parked on the gate and nothing of the server on its way to the socket; the gate opens once the connection reports RECONNECTING, so every reply is published into the client's reconnect buffer; the link comes back after Serve returned or 0-2ms after the gate opened; replies judged after status CONNECTED + a Flush round trip; if Stop has not returned 10s after it was called the gate opens without a blip) x server connection option DrainTimeout {default, bare Options literal = 0, 1ms, 50ms} incl. backlogs that outlast it x server connection shared with an unrelated subscription or not x 1-2 subjects x arrival pattern; every scenario runs a real FNatsServer against an embedded nats-server in a child process; distinct = (w, q, burst class, handler mode, stop-position class, rest mode, sharing, subjects)")
 	run.Assume("embedded nats-server v2 routes a PUB to the subscribers' outbound queues before it answers the publisher's PING, and a connection's PONG follows the MSGs queued before it (the double flush defines 'received before Stop', as the pinned TestShutdown does on one connection)")
 	run.Assume("nats.go SubscribeSync/Pending/NextMsg on the collector connection and Flush are correct (reply collector)")
+	run.Assume("link blip: nats.go switches a connection's writer to its reconnect buffer before Status() reports RECONNECTING, a Publish in that state returns nil and is written to the new socket before Status() reports CONNECTED (8 MB buffer, replies are < 100 bytes); the relay cuts the link only when no reply can be on its way to the socket")
 	run.Assume("the recording processor is the only FProcessor; handler durations are finite (the gate is opened after Stop is called, never after it returns)")
 
 	self, err := os.Executable()
@@ -1028,7 +1115,7 @@ func runC20(tier string, args []string) int {
 		if r.QueueFull {
 			run.Add("scenarios_queue_full_at_stop", 1)
 		}
-		if r.AtStop.Received-r.AtStop.Started > int64(r.Config.Q) {
+		if r.NoReplyPublished == 0 && r.AtStop.Received-r.AtStop.Started > int64(r.Config.Q) {
 			run.Add("scenarios_callback_blocked_on_full_queue_at_stop", 1)
 		}
 		if r.AtStopRet.Finished < r.AtStopRet.Received {
@@ -1086,6 +1173,24 @@ func runC20(tier string, args []string) int {
 			run.Add("scenarios_server_conn_lost_before_stop_"+r.Config.ConnLoss, 1)
 			if r.AtStop.Finished < r.AtStop.Received {
 				run.Add("scenarios_server_conn_lost_with_backlog", 1)
+			}
+		}
+		if r.NoReplyPublished > 0 {
+			run.Add("scenarios_with_replyless_messages", 1)
+			run.Add("replyless_messages_published_before_stop", r.NoReplyPublished)
+		}
+		if r.Config.Blip != "" {
+			run.Add("scenarios_server_link_blip_"+r.Config.Blip, 1)
+			if r.BlipApplied {
+				run.Add("scenarios_server_link_blip_applied", 1)
+				run.Add("server_conn_reconnects_after_blip", r.BlipReconnects)
+				run.Add("reconnect_attempts_refused_while_link_down", r.BlipTurnedAway)
+				if r.BlipAtServeRet == "RECONNECTING" {
+					run.Add("scenarios_serve_returned_while_conn_reconnecting", 1)
+					run.Add("replies_published_into_reconnect_buffer_and_collected", r.Replies)
+				}
+			} else {
+				run.Add("scenarios_server_link_blip_not_applied", 1)
 			}
 		}
 		if r.Config.DrainTO != "" {
